@@ -99,6 +99,7 @@ type Results struct {
 	CrossN      int
 	CrossDis    int
 	ObsSamples  []obsSample
+	ForkSites   map[string]int
 }
 
 type obsSample struct {
@@ -380,6 +381,12 @@ func (e *Engine) collect(p *Path) {
 		hs.Notes["UNWIND: "+p.statusMsg]++
 	case stCut:
 		hs.Notes["cut: "+p.statusMsg]++
+	}
+	for k, v := range p.forkLog {
+		if e.res.ForkSites == nil {
+			e.res.ForkSites = map[string]int{}
+		}
+		e.res.ForkSites[k] += v
 	}
 	e.res.Violations = append(e.res.Violations, p.violations...)
 	for fn := range p.funcsRun {
